@@ -5,8 +5,10 @@ package harness
 import (
 	"bytes"
 	"fmt"
+	mh "github.com/multiformats/go-multihash"
 	"io"
 	"sort"
+	"strings"
 	"testing"
 	"testing/iotest"
 
@@ -54,7 +56,7 @@ func TestC10_P_Deterministic(t *testing.T) {
 	maxLen := scale(2048, 32768)
 	maxN := scale(200, 2000)
 	rapid.Check(t, func(t *rapid.T) {
-		kind := rapid.SampledFrom([]string{"file", "file", "file", "sharded", "sharded", "sharded", "plain", "plain", "quick", "quick", "threshold"}).Draw(t, "kind")
+		kind := rapid.SampledFrom([]string{"file", "file", "file", "sharded", "sharded", "sharded", "plain", "plain", "quick", "quick", "threshold", "sharded-otherhash"}).Draw(t, "kind")
 		var results []buildResult
 		var variants []string
 		run := func(variant string, f func(st *Store) (cid.Cid, uint64, error)) {
@@ -76,6 +78,9 @@ func TestC10_P_Deterministic(t *testing.T) {
 			ck := genChunker(t)
 			content := genContent(t, ck, w, maxLen)
 			run("plain", func(st *Store) (cid.Cid, uint64, error) { return buildFile(st, content, ck.Name, w) })
+			if rapid.IntRange(0, 2).Draw(t, "failedBetween") == 0 {
+				must(t, "intervening failed builds", func() { ev.Count("failed-builds-between:"+bucket(len(failedBuilds(t))), 1) })
+			}
 			run("again", func(st *Store) (cid.Cid, uint64, error) { return buildFile(st, content, ck.Name, w) })
 			pattern := rapid.SliceOfN(rapid.IntRange(1, 70), 1, 8).Draw(t, "fragments")
 			run(fmt.Sprintf("fragments%v", pattern), func(st *Store) (cid.Cid, uint64, error) {
@@ -127,9 +132,22 @@ func TestC10_P_Deterministic(t *testing.T) {
 			build := func(order []entrySpec) func(st *Store) (cid.Cid, uint64, error) {
 				return func(st *Store) (cid.Cid, uint64, error) { return c02Build(st, order, how, fanout) }
 			}
+			if kind == "sharded-otherhash" {
+				// the sharded builder takes the name-hash function as a parameter: any registered multihash with >= 8 digest bytes
+				hasher := rapid.SampledFrom([]uint64{mh.SHA2_256, mh.SHA2_512, mh.SHA3_256, mh.BLAKE2B_MIN + 31}).Draw(t, "hasher")
+				if len(es) > 60 {
+					es = es[:60] // (names crafted for murmur3 do not collide under other functions; keep it small)
+				}
+				build = func(order []entrySpec) func(st *Store) (cid.Cid, uint64, error) {
+					return func(st *Store) (cid.Cid, uint64, error) { return buildShardedHasher(st, order, fanout, hasher) }
+				}
+			}
 			run("sorted", build(es))
-			if rapid.IntRange(0, 2).Draw(t, "intervene") == 0 {
+			switch rapid.IntRange(0, 5).Draw(t, "intervene") {
+			case 0, 1:
 				must(t, "intervening builds", func() { otherBuilds(salt) }) // another name-hash function, other fanouts
+			case 2, 3:
+				must(t, "intervening failed builds", func() { ev.Count("failed-builds-between:"+bucket(len(failedBuilds(t))), 1) })
 			}
 			run("again", build(es))
 			perm := rapid.Permutation(es).Draw(t, "perm")
@@ -149,7 +167,7 @@ func TestC10_P_Deterministic(t *testing.T) {
 				// the quick builder over the same entries must give the same directory as the plain builder
 				run("quick-builder", func(st *Store) (cid.Cid, uint64, error) { return c02Build(st, es, "quick", fanout) })
 			}
-			nt = (kind != "sharded" && len(es) >= 2 && !identity) || (kind == "sharded" && results[0].nblk >= 3 && !identity)
+			nt = (!strings.HasPrefix(kind, "sharded") && len(es) >= 2 && !identity) || (strings.HasPrefix(kind, "sharded") && results[0].nblk >= 3 && !identity)
 			fp = fmt.Sprintf("%s f=%d n=%s blocks=%s id=%v", kind, fanout, bucket(len(es)), bucket(results[0].nblk), identity)
 		}
 		for i := 1; i < len(results); i++ {
